@@ -4,7 +4,7 @@ PROPS = {}
 
 PROPS['C07'] = dict(
   level='proof',
-  verus=[dict(unit='chanq', min_functions=10)],
+  verus=[dict(unit='chanq', min_functions=10), dict(unit='ops', min_functions=2)],
   kani=[],
   not_decided=['resumption of a blocked synchronous sender is the scheduler\'s (C08), not decided here'],
 )
